@@ -157,3 +157,73 @@ mut("e12-attr-rewritten", ["C18", "C12"], "geometry/series.go",
     "func (series *baseSeries) Convex() bool {\n\treturn series.convex",
     "func (series *baseSeries) Convex() bool {\n\tif len(series.points) < 4 {\n\t\tseries.convex = true\n\t}\n\treturn series.convex",
     "E12.attr", note="convex flag rewritten by a query")
+
+# ---------------- E14 units / axes / ranges / algebra of the spherical primitives ----------------
+mut("e14-bearing-no-360", ["C15"], "geo/geo.go",
+    "\treturn math.Mod(θ*degrees+360, 360)",
+    "\treturn math.Mod(θ*degrees, 360)",
+    "E14.range", note="bearings in (-180,0) are returned negative", sentinel=True)
+mut("e14-dest-one-pi", ["C15", "C14"], "geo/geo.go",
+    "\tλ2 = math.Mod(λ2+3*math.Pi, 2*math.Pi) - math.Pi",
+    "\tλ2 = math.Mod(λ2+math.Pi, 2*math.Pi) - math.Pi",
+    "E14.range", note="longitude below -180 when the destination crosses the antimeridian westwards")
+mut("e14-hav-cos-typo", ["C15"], "geo/geo.go",
+    "\treturn sΔφ2*sΔφ2 + math.Cos(φ1)*math.Cos(φ2)*sΔλ2*sΔλ2",
+    "\treturn sΔφ2*sΔφ2 + math.Cos(φ1)*math.Cos(φ1)*sΔλ2*sΔλ2",
+    "E14.algebra", note="haversine no longer symmetric")
+mut("e14-hav-lon-nohalf", ["C15"], "geo/geo.go",
+    "\tsΔλ2 := math.Sin(Δλ / 2)",
+    "\tsΔλ2 := math.Sin(Δλ)",
+    "E14.algebra", note="longitude term uses the full angle")
+mut("e14-tohav-factor", ["C15", "C13"], "geo/geo.go",
+    "\tsin := math.Sin(0.5 * meters / earthRadius)",
+    "\tsin := math.Sin(meters / earthRadius)",
+    "E14.algebra", note="metres->haversine no longer inverse of haversine->metres")
+mut("e14-fromhav-factor", ["C15"], "geo/geo.go",
+    "\treturn earthRadius * 2 * math.Asin(math.Sqrt(haversine))",
+    "\treturn earthRadius * math.Asin(math.Sqrt(haversine))",
+    "E14.algebra", note="haversine->metres halved")
+mut("e14-dest-bearing-degrees", ["C15", "C14"], "geo/geo.go",
+    "\tθ := bearingDegrees * radians",
+    "\tθ := bearingDegrees",
+    "E14.units", note="trigonometry applied to degrees")
+mut("e14-dest-swap-results", ["C15", "C14"], "geo/geo.go",
+    "\treturn φ2 * degrees, λ2 * degrees",
+    "\treturn λ2 * degrees, φ2 * degrees",
+    "E14.units", note="latitude and longitude results swapped")
+mut("e14-normalize-half", ["C15"], "geo/geo.go",
+    "\treturn math.Mod(meters, twoPiR)",
+    "\treturn math.Mod(meters, piR)",
+    "E14.algebra", note="normalisation modulus is not a period of the haversine")
+mut("e14-semi-scale", ["C15"], "geo/geo.go",
+    "\treturn float64(semi) * (180.0 / math.Pow(2, 31))",
+    "\treturn float64(semi) * (180.0 / math.Pow(2, 32))",
+    "E14.algebra", note="semicircle decode scale is not the reciprocal of the encode scale")
+mut("e14-rect-radius-degrees", ["C15", "C14"], "geo/geo.go",
+    "\tr := meters / earthRadius\n",
+    "\tr := meters / earthRadius * degrees\n",
+    "E14.units", note="angular radius in degrees subtracted from radians")
+mut("e14-circle-swapped-centre", ["C13", "C15"], "circle.go",
+    "\th := geo.Haversine(p.Y, p.X, g.center.Y, g.center.X)",
+    "\th := geo.Haversine(p.Y, p.X, g.center.X, g.center.Y)",
+    "E14.axis", note="centre passed as (lon, lat)")
+mut("e14-makecircle-lat-as-lon", ["C13", "C15"], "circle.go",
+    "\t_, maxX := geo.DestinationPoint(center.Y, center.X, meters, 90)",
+    "\tmaxX, _ := geo.DestinationPoint(center.Y, center.X, meters, 90)",
+    "E14.axis", note="the latitude result is used as a longitude bound")
+mut("e14-benign-inline-radians", ["C15", "C14"], "geo/geo.go",
+    "\tδ := meters / earthRadius // angular distance in radians\n\tθ := bearingDegrees * radians\n\tφ1 := lat * radians\n\tλ1 := lon * radians",
+    "\tδ := meters / earthRadius // angular distance in radians\n\tconst toRad = math.Pi / 180\n\tθ := bearingDegrees * toRad\n\tφ1 := lat * math.Pi / 180\n\tλ1 := toRad * lon",
+    kind="benign", note="conversion factor spelled three ways")
+mut("e14-benign-fromhav-order", ["C15"], "geo/geo.go",
+    "\treturn earthRadius * 2 * math.Asin(math.Sqrt(haversine))",
+    "\troot := math.Sqrt(haversine)\n\treturn 2 * math.Asin(root) * earthRadius",
+    kind="benign", note="same formula, different association")
+mut("e14-benign-hav-helper", ["C15"], "geo/geo.go",
+    "\tsΔφ2 := math.Sin(Δφ / 2)\n\tsΔλ2 := math.Sin(Δλ / 2)\n\treturn sΔφ2*sΔφ2 + math.Cos(φ1)*math.Cos(φ2)*sΔλ2*sΔλ2\n}",
+    "\treturn hav(Δφ) + math.Cos(φ2)*hav(Δλ)*math.Cos(φ1)\n}\n\nfunc hav(x float64) float64 {\n\ts := math.Sin(0.5 * x)\n\treturn s * s\n}",
+    kind="benign", note="haversine through a helper")
+mut("e14-benign-bearing-locals", ["C15"], "geo/geo.go",
+    "\treturn math.Mod(θ*degrees+360, 360)",
+    "\tdeg := θ * degrees\n\tconst full = 360.0\n\treturn math.Mod(deg+full, full)",
+    kind="benign", note="bearing normalisation with named locals")
